@@ -225,6 +225,17 @@ def volume_to_precomputed(pyramid_writer, volume, chunk_transformer=None):
                     info["scales"][0]["key"], chunk_coords
                 )
                 progress_bar.update()
+    _close_accessor(pyramid_writer.accessor)
+
+
+def _close_accessor(accessor):
+    """Flush accessors that buffer their output (sharded datasets).
+
+    This must not be left to the exit handler of the accessor: an I/O error
+    raised there is not reported in the exit status of the program."""
+    close = getattr(accessor, "close", None)
+    if close is not None:
+        close()
 
 
 def nibabel_image_to_precomputed(img,
